@@ -10,7 +10,7 @@ CLAIMED = {
         text='Structural theorem, exhaustive over all MIR bodies of the crate: every effect site (enumerated by capability: '
              'uses of the injected writer, clock, random source, thread::sleep, regex compilation) is dominated by '
              'check_permission(&P)? for the permission the book assigns to it, in its own body or at every call / closure-creation '
-             'site up the call graph; the permission constants carry the documented defaults and the lookup falls back to them. '
+             'site up the call graph; the permission constants carry the documented defaults and the lookup falls back to them; allow / forbid overwrite the entry of the permission on every path with the value their name says, so the host\'s last word is what the lookup sees. '
              'Obligations = effect sites + constant/shape obligations; all must be discharged.',
         note='Trusted: rustc MIR + trait resolution; effect primitives named in rules/c11.py (io::Write on W, TimeProvider::unix_now, '
              'get_rng, thread::sleep, regex/regex_automata constructors); host code outside the crate; unwinding paths ignored.',
@@ -54,8 +54,8 @@ CLAIMED = {
         design='2/C08'),
     'C07': dict(
         level='other',
-        text='A complete flag-provenance argument on resolved MIR over all bodies of the crate: TailCall is constructed once, under '
-             'tail flag ∧ callee is the local recursion cell; inside eval the flag flows only to that test and the Call-arm dispatch; every '
+        text='A complete flag-provenance argument on resolved MIR over all bodies of the crate: TailCall is constructed once, and eval, evaluated abstractly on a Call expression for every combination of '
+             '(tail flag, kind of callee expression, kind of callee cell), returns TailCall (or a propagated failure) and nothing else exactly for a flagged call of the local recursion cell, and never otherwise; inside eval the flag flows only to that test and the Call-arm dispatch; every '
              'evaluation performed under a non-false flag (19 sites) has its result returned unchanged by its caller (never unwrapped, matched or '
              'stored), the flag being the caller\'s own parameter applied to its own scope and argument slice; the trampoline consumes TailCall by '
              'looping; eval_func_with_values cannot hand its flag to user code; every documented short-circuit parameter that is returned unchanged '
@@ -63,7 +63,7 @@ CLAIMED = {
              'frame is built). Together: a TailCall is produced only for a self-call '
              'in tail position and is consumed only by the trampoline of that same function. NOT decided by execution: numeric equality of results.',
         note='Trusted: rustc MIR; the book as the list of documented short-circuit functions. Literal-true flag sites are listed with reasons in rules/c07.py.',
-        technique='static analysis: flag/value provenance dataflow, dominating-condition extraction, forward result-flow (tail-position) check on resolved MIR',
+        technique='static analysis: flag/value provenance dataflow, abstract decision table of the TailCall test, forward result-flow (tail-position) check on resolved MIR',
         design='2/C07'),
     'C06': dict(
         level='other',
@@ -87,10 +87,10 @@ CLAIMED = {
              'operator; failed try_into; MIN arms; listed assert sites) — the canonical form on which derived equality, hash, text and the '
              'mixed comparison arms rely; overflow-capable machine arithmetic on the small form only behind arms excluding (MIN,-1)/MIN; '
              'impls of Op/OpAssign apply only Op; swapped or-patterns only in commutative operators; Rem floored as documented; mixed '
-             'comparison arms mirrored; the int builtins register the operator of the same name. NOT decided: exactness of gcd/lcm/'
+             'comparison arms mirrored (abstract decision table on the MIR); the int builtins register the operator of the same name; no saturating float-to-integer `as` cast yields a program integer; abs of the machine word only where i64::MIN is excluded; integer functions of the stdlib written in the language do not round a float quotient; the float parse of a number literal is reached only after the spelling was tested for being an integer spelling. NOT decided: exactness of gcd/'
              'factorial/roots/binom/multinom arithmetic and of text/float conversions (value-level).',
         note='Trusted: syn parse; i64 checked_* and num-bigint semantics; the book for the rounding mode of mod.',
-        technique='static analysis: syntax-tree rules (constructor-site classification, arm-order guards, operator/trait agreement, table agreement with the book)',
+        technique='static analysis: syntax-tree rules (constructor-site classification, arm-order guards, operator/trait agreement, table agreement with the book); cast / call inventories, dominance and control-dependence rules and an abstract decision table on resolved MIR; a lexical rule over the stdlib text',
         design='2/C14'),
     'C12': dict(
         level='other',
@@ -126,8 +126,8 @@ CLAIMED = {
         design='2/C03'),
     'C04': dict(
         level='other',
-        text='Structural necessary conditions of the static checker decided on the syntax tree for every site: calls through function-typed '
-             'values are arity- and argument-checked for both callee kinds; both declared-type checks reject a non-empty binding; every zip of '
+        text='Structural necessary conditions of the static checker decided for every site (resolved MIR; the sibling case tables on the syntax tree): calls through function-typed '
+             'values are arity- and argument-checked for both callee kinds; both declared-type checks, evaluated abstractly for the three possible results of bind_in_assignment (none / empty binding / binding of a generic), reject / accept / reject; every zip of '
              'two runtime-length lists in the type relations and call/construct typing is preceded by a length test on the same two lists (or '
              'listed with a confirmed reason) and its two sides iterate in the same direction; the hand-written type equality reads every '
              'typing-relevant field (incl. the return type of function types); the case tables of bind_in_assignment / common_type / eq agree '
@@ -135,7 +135,7 @@ CLAIMED = {
              '(MIR: every insert into bound_generics on the found side of a lookup of the same map). These rule out the accept-too-much failures (truncated comparison, ignored component, swapped '
              'component). NOT decided: completeness (every assignable program accepted) and least-common-type optimality.',
         note='Trusted: syn parse; the reasons in ZIP_OK / PAIR_TABLE_REASONS (rules/c04.py) were confirmed by reading.',
-        technique='static analysis: syntax-tree rules (guard-before-zip, field coverage of hand-written equality, sibling case-table agreement); value-origin rule on resolved MIR (generic re-binding)',
+        technique='static analysis on resolved MIR: binding-consumer and arity dominance, zip-origin analysis, abstract decision tables, ADT field coverage of the hand-written equality, value-origin rule for generic re-binding; sibling case-table agreement on the syntax tree',
         design='2/C04'),
     'C05': dict(
         level='other',
@@ -145,10 +145,10 @@ CLAIMED = {
              'documented decision (take the single exact; ambiguity for >1 exact; else the single generic; ambiguity for >1 generic; else '
              'NoOverload) whatever its syntactic form; the tier of a candidate is a function of (is_generic, '
              'is_unknown) and is_unknown of the argument types only; own overloads are appended before the parent\'s and never indexed by '
-             'position. Hence the outcome depends only on the multiset of matching candidates. Known finding: dynamic candidates share the '
+             'position; the own generic-parameter list of a declaration (which decides its tier) is not influenced by the generic names inherited from enclosing functions (data + control dependences with &mut mutation and closure summaries), so renaming a generic parameter cannot change a rank. Hence the outcome depends only on the multiset of matching candidates. Known finding: dynamic candidates share the '
              'generic tier (R05.6). NOT decided: that spec.bind matches exactly the right candidates (C04).',
         note='Trusted: syn parse. One known finding listed in known_findings.json.',
-        technique='static analysis: loop-carried-state and early-exit analysis on the syntax tree; finite abstract evaluation of the post-loop decision table on resolved MIR',
+        technique='static analysis on resolved MIR: loop-carried-state and exit-edge analysis, finite abstract evaluation of the post-loop decision table, influence (dependence) closure of the own-generics list; two tier/append rules on the syntax tree',
         design='2/C05'),
     'C01': dict(
         level='other',
@@ -210,7 +210,7 @@ CLAIMED = {
              'in-memory collection, a usize range or a take(n), and not the logical elements of a lazy sequence / generator), or listed with a termination reason; inside the generator iterator every adaptor that can discard unboundedly many items '
              'per step is over a finite outer, calls a user function per item (so the call limit bounds it) or is reported; generator consumption '
              'and core::search are zipped with the search budget and propagate its violation; the timeout gate has the shape deadline > now and '
-             'dominates every user frame. One known finding (unbudgeted skip). NOT decided: wall-clock bounds, cost of library calls, loops over '
+             'dominates every user frame; the search budget of a native call is obtained once, outside every loop and per-item closure. One known finding (unbudgeted skip). NOT decided: wall-clock bounds, cost of library calls, loops over '
              'sequences of finite but astronomically large logical length (bounded by the size limit only).',
         note='Trusted: rustc MIR (back edges), std iterator type names denote what they iterate; termination reasons in rules/c10.py LOOP_OK confirmed by reading.',
         technique='static analysis: natural-loop inventory with type-based iterator classification on resolved MIR; adaptor inventory; shape rules',
@@ -234,9 +234,9 @@ CLAIMED = {
              'of absorbing adaptors (collect, count, last, fold, ...) on inner generator iterators anywhere in the _iter family; the slice '
              'dimensions are decided by path-sensitive dependences on the MIR: on every path the merged start depends on inner start and start, the '
              'merged end depends on the new end + inner start whenever the new end may exist and on the inner end whenever it may exist, and the '
-             'consumer takes a count depending on stored end and start and skips the stored start. NOT decided: element-wise agreement with list pipelines.',
+             'consumer takes a count depending on stored end and start and skips the stored start; generator-to-generator library functions written in the language apply no consuming function (by the book: Generator in, non-Generator out) to their generator parameter. One known finding (flatten walks its outer generator eagerly). NOT decided: element-wise agreement with list pipelines.',
         note='Trusted: rustc MIR, syn parse, laziness of std iterator adaptors.',
-        technique='static analysis: immutability audit, adaptor inventory over the iterator-construction bodies, path-sensitive dependence analysis of the slice dimensions — all on resolved MIR',
+        technique='static analysis: immutability audit, adaptor inventory over the iterator-construction bodies, path-sensitive dependence analysis of the slice dimensions on resolved MIR; a lexical rule over the stdlib text against the book\'s signatures',
         design='2/C16'),
     'C19': dict(
         level='other',
